@@ -23,7 +23,7 @@ import (
 func init() { commands["events"] = cmdEvents }
 
 type evFault struct {
-	Kind string // none stmt commit
+	Kind string // none stmt commit cancel_stmt cancel_commit
 	N    int
 }
 
@@ -44,6 +44,7 @@ type evStep struct {
 }
 
 type evCase struct {
+	Snapshots bool // C07 view: compare the ledger snapshot around every cancelled step
 	Init  bool // ledger still initializing when the steps start
 	Prep  []Op // executed first (through the controller) when !Init, untraced
 	Steps []evStep
@@ -124,6 +125,7 @@ type evRun struct {
 	Results   [][]OpResult
 	Note      string
 	NextLog   int64
+	C07       []string // snapshot monitor of cancelled steps
 }
 
 func ledgerInitializing(st *Stack) bool {
@@ -214,25 +216,53 @@ func runEvCase(c evCase) *evRun {
 		tr.CurOp = si
 		run.InitAt = append(run.InitAt, ledgerInitializing(st))
 		tr.ResetCount()
+		// every step is one request with its own context
+		opCtx, cancel := context.WithCancel(ctx)
+		isCancel := strings.HasPrefix(s.Fault.Kind, "cancel") && c.Snapshots
+		before := ""
+		if isCancel {
+			before = st.Snapshot(ctx, ctrl, "l1", allOn).sx()
+		}
 		switch s.Fault.Kind {
 		case "stmt":
 			tr.FailStmtAt(s.Fault.N)
 		case "commit":
 			tr.FailCommitIn(s.Fault.N)
+		case "cancel_stmt":
+			tr.CancelAtStmt(s.Fault.N, cancel)
+		case "cancel_commit":
+			tr.CancelBeforeCommit(s.Fault.N, cancel)
 		}
+		tr.ResetCount()
 		st.PG.Clock = pgsem.TS(s.Ops[0].Now)
 		mark := len(tr.Items)
 		var results []OpResult
 		var runErr error
 		if s.Bulk {
-			results, runErr = runBulkDirect(ctx, ctrl, s.Ops, s.Atomic, s.Cont)
+			results, runErr = runBulkDirect(opCtx, ctrl, s.Ops, s.Atomic, s.Cont)
 		} else {
-			results = []OpResult{runOp(ctx, ctrl, s.Ops[0])}
+			results = []OpResult{runOp(opCtx, ctrl, s.Ops[0])}
 		}
+		// the rollback of a cancelled transaction is performed by database/sql's watcher goroutine: wait for pgsem to see it
+		tr.WaitNoOpenTx("a transaction is still open after the operation returned")
+		cancel()
 		run.StmtCount = append(run.StmtCount, tr.Stmts)
 		faultHit, faultInTx := tr.FaultHit, tr.FaultInTx
+		cancelHit, cancelOnLog := tr.CancelHit, tr.CancelOnLog
+		cancelAssigned := false
 		_ = o0(s.Ops)
 		tr.Disarm()
+		if isCancel {
+			committed := false
+			for _, it := range tr.Items[mark:] {
+				if it.Kind == "commit" {
+					committed = true
+				}
+			}
+			if after := st.Snapshot(ctx, ctrl, "l1", allOn).sx(); !committed && after != before {
+				run.C07 = append(run.C07, fmt.Sprintf("step %d: the request context was cancelled (%s) and no transaction committed, yet the ledger snapshot changed [cancelled-write-left-trace]", si, s.Fault.sx()))
+			}
+		}
 		commitFailed := false
 		for _, it := range tr.Items[mark:] {
 			if it.Kind == "commit_fail" {
@@ -255,6 +285,8 @@ func runEvCase(c evCase) *evRun {
 			isHit := r.Class == "none" && (r.Hit || seenLog[r.LogID])
 			injCommit := strings.Contains(r.Class, "injected COMMIT failure")
 			injStmt := strings.Contains(r.Class, "injected statement failure")
+			txDone := strings.Contains(r.Class, "transaction has already been committed or rolled back")
+			ctxCancelled := r.Class == "cancelled" || strings.Contains(r.Class, "context canceled")
 			switch {
 			case exp == "ok" || exp == "fail":
 				outs[i] = exp
@@ -265,8 +297,13 @@ func runEvCase(c evCase) *evRun {
 				outs[i] = L("hit", fmt.Sprint(r.LogID))
 			case r.Class == "none":
 				outs[i] = "ok"
-			case r.Class == "cancelled":
+			case s.Fault.Kind == "cancel_stmt" && cancelHit && !cancelAssigned && ctxCancelled:
+				outs[i] = L("cancel", b01(cancelOnLog)) // the element that was running when the context was cancelled
+				cancelAssigned = true
+			case r.Class == "cancelled" || (cancelHit && ctxCancelled):
 				outs[i] = "ok" // never executed: irrelevant to the model
+			case txDone && cancelHit:
+				outs[i] = "ok" // the write itself succeeded; the context was cancelled before its COMMIT (sql.ErrTxDone)
 			case injCommit:
 				outs[i] = "ok" // the write itself succeeded; its COMMIT failed
 			case injStmt && faultHit && !faultInTx:
@@ -299,12 +336,15 @@ func runEvCase(c evCase) *evRun {
 		if s.Fault.Kind == "commit" {
 			run.Abstract = append(run.Abstract, L("failcommit", fmt.Sprint(s.Fault.N)))
 		}
+		if s.Fault.Kind == "cancel_commit" {
+			run.Abstract = append(run.Abstract, L("cancelcommit", fmt.Sprint(s.Fault.N)))
+		}
 		if s.Bulk {
 			run.Abstract = append(run.Abstract, L("bulk", b01(s.Atomic), b01(s.Cont), L(outs...)))
 		} else {
 			run.Abstract = append(run.Abstract, L("w", b01(s.Ops[0].Dry), outs[0]))
 		}
-		if s.Fault.Kind == "commit" {
+		if s.Fault.Kind == "commit" || s.Fault.Kind == "cancel_commit" {
 			// the model's switch stays armed when no COMMIT consumed it; the harness disarms after the step
 			run.Abstract = append(run.Abstract, L("disarm"))
 		}
@@ -511,7 +551,17 @@ func cmdEvents(args []string) int {
 		for _, m := range monitorC31(r) {
 			out.Violation("C31", cs, m)
 		}
+		for _, m := range r.C07 {
+			out.Violation("C07", cs, m)
+		}
 	}
+	only := f.Extra["faults"] // "cancel": only the cancellation faults, with ledger snapshots around them (the C07 view)
+	run0 := runEvCase
+	runEvCase := func(c evCase) *evRun {
+		c.Snapshots = only == "cancel" || f.Replay != "" || f.N >= 400
+		return run0(c)
+	}
+	want := func(kind string) bool { return only == "" || (only == "cancel" && strings.HasPrefix(kind, "cancel")) }
 	if f.Replay != "" {
 		for _, line := range ReadLines(f.Replay) {
 			finish(runEvCase(parseEvCase(line)), "replay")
@@ -557,14 +607,41 @@ func cmdEvents(args []string) int {
 				// ok
 				if c, ok := step(ctx, okW, evFault{Kind: "none"}, "ok"); ok {
 					r := runEvCase(c)
-					finish(r, ctx)
+					if want("none") {
+						finish(r, ctx)
+					}
 					// every statement-fault position of this step
 					K := r.StmtCount[0]
 					stride := 1
 					if f.N < 400 && K > 12 {
 						stride = 2
 					}
-					for k := 1; k <= K; k += stride {
+					obs := func(c evCase) evCase {
+						for i := range c.Steps[0].Exp {
+							c.Steps[0].Exp[i] = "obs"
+						}
+						return c
+					}
+					// the context is cancelled at every statement index, and right before every COMMIT
+					cstride := stride
+					if f.N < 400 && only == "" {
+						cstride = 2 // quick tier of C31: every other statement (the C07 tie and the thorough tier visit all)
+					}
+					for k := 1 + (len(kind)+len(ctx))%cstride; k <= K && want("cancel_stmt"); k += cstride {
+						c4, _ := step(ctx, okW, evFault{"cancel_stmt", k}, "obs")
+						finish(runEvCase(obs(c4)), ctx+"_cancelstmt")
+						out.Stats["cancel_positions"]++
+					}
+					ncc := 1
+					if strings.HasPrefix(ctx, "nonatomic") {
+						ncc = 3
+					}
+					for n := 0; n < ncc && want("cancel_commit"); n++ {
+						c5, _ := step(ctx, okW, evFault{"cancel_commit", n}, "obs")
+						finish(runEvCase(obs(c5)), ctx+"_cancelcommit")
+						out.Stats["cancel_positions"]++
+					}
+					for k := 1; k <= K && want("stmt"); k += stride {
 						c2, _ := step(ctx, okW, evFault{"stmt", k}, "obs")
 						for i := range c2.Steps[0].Exp {
 							c2.Steps[0].Exp[i] = "obs"
@@ -577,7 +654,7 @@ func cmdEvents(args []string) int {
 					if strings.HasPrefix(ctx, "nonatomic") {
 						ncommit = 3
 					}
-					for n := 0; n < ncommit; n++ {
+					for n := 0; n < ncommit && want("commit"); n++ {
 						c3, _ := step(ctx, okW, evFault{"commit", n}, "obs")
 						for i := range c3.Steps[0].Exp {
 							c3.Steps[0].Exp[i] = "obs"
@@ -588,12 +665,12 @@ func cmdEvents(args []string) int {
 				// dry run
 				dry := okW
 				dry.Dry = true
-				if c, ok := step(ctx, dry, evFault{Kind: "none"}, "ok"); ok {
+				if c, ok := step(ctx, dry, evFault{Kind: "none"}, "ok"); ok && want("none") {
 					finish(runEvCase(c), ctx+"_dry")
 				}
 			}
 			// idempotent replay of the same request (single contexts)
-			if ctx == "plain" || (ctx == "first" && !needsTx) {
+			if (ctx == "plain" || (ctx == "first" && !needsTx)) && want("none") {
 				w1 := okW
 				w1.IK = "ik-replay"
 				w2 := w1
@@ -607,7 +684,7 @@ func cmdEvents(args []string) int {
 			if needsTx && fresh {
 				failW, hasFail = okW, true // no such transaction on a fresh ledger
 			}
-			if hasFail {
+			if hasFail && want("none") {
 				if c, ok := step(ctx, failW, evFault{Kind: "none"}, "fail"); ok {
 					finish(runEvCase(c), ctx+"_fail")
 				}
@@ -616,7 +693,7 @@ func cmdEvents(args []string) int {
 	}
 	// ---- random histories (abstract outcomes taken from the results; replays under idempotency keys included)
 	r := NewRng(f.Seed)
-	for i := 0; i < f.N; i++ {
+	for i := 0; i < f.N && only == ""; i++ {
 		rr := r.Fork()
 		finish(runEvCase(genEvCase(rr)), "random")
 	}
@@ -689,6 +766,10 @@ func genEvCase(r *Rng) evCase {
 			s.Fault = evFault{"commit", r.Intn(2)}
 		case k < 24:
 			s.Fault = evFault{"stmt", 1 + r.Intn(14)}
+		case k < 34:
+			s.Fault = evFault{"cancel_stmt", 1 + r.Intn(14)}
+		case k < 44:
+			s.Fault = evFault{"cancel_commit", r.Intn(2)}
 		default:
 			s.Fault = evFault{Kind: "none"}
 		}
